@@ -189,7 +189,8 @@ fn c18_tab() {
     );
     assert!(SQUARE_TO_WHITE_BONUS_INDEX[sq] < 64 && SQUARE_TO_BLACK_BONUS_INDEX[sq] < 64);
     // per-piece value bounds used by the arithmetic argument in c18_bound
-    let v = MATERIAL_VALUES[k] + BONUS_TABLES[k][e][sq];
+    // (casts: the claim does not depend on the element type the tables are stored in)
+    let v = MATERIAL_VALUES[k] as i32 + BONUS_TABLES[k][e][sq] as i32;
     assert!(v > 0 && v <= 20050);
 }
 
